@@ -224,6 +224,9 @@ def run_unit(idx):
             rec["canary"] = True
     except EngineUnsupported as e:
         rec["unsupported"] = str(e)
+    except KeyError as e:
+        rec["error"] = (f"sidecar contract refers to local {e} which the function no longer has (renamed or removed?) - the contract "
+                        "needs updating; this is not a verdict about the property\n") + traceback.format_exc()
     except Exception:  # noqa
         rec["error"] = traceback.format_exc()
     rec["seconds"] = round(time.time() - t0, 3)
